@@ -360,8 +360,20 @@ func (r *Response) Cookie(name string) *http.Cookie {
 	return out
 }
 
+// ProxyMonitor, when set, sees every request/response pair that goes through any ProxyEnv (C18
+// uses it to watch the other checks' harnesses). host/proto describe the request as sent.
+var ProxyMonitor func(e *ProxyEnv, method, host, target, forwardedProto string, resp *Response)
+
 // Do sends one request through the full handler chain.
 func (e *ProxyEnv) Do(req *http.Request) *Response {
+	resp := e.do(req)
+	if ProxyMonitor != nil {
+		ProxyMonitor(e, req.Method, req.Host, req.URL.RequestURI(), req.Header.Get("X-Forwarded-Proto"), resp)
+	}
+	return resp
+}
+
+func (e *ProxyEnv) do(req *http.Request) *Response {
 	for _, b := range e.Backends {
 		b.Reset()
 	}
@@ -468,5 +480,10 @@ func (e *ProxyEnv) DoRaw(raw string) (*Response, error) {
 		resp.Hits = append(resp.Hits, e.Backends[n].Take()...)
 	}
 	resp.Calls = e.Auth.Take()
+	if ProxyMonitor != nil {
+		if rq, err := http.ReadRequest(bufio.NewReader(strings.NewReader(raw))); err == nil {
+			ProxyMonitor(e, rq.Method, rq.Host, rq.URL.RequestURI(), rq.Header.Get("X-Forwarded-Proto"), resp)
+		}
+	}
 	return resp, nil
 }
